@@ -15,8 +15,10 @@ cap, so a change of the constant cannot break them.
 What is proved: termination and totality for every input and *every scalar type* (so also for the
 `Float` instance: no algebraic law is used), the shape/normalisation/Rayleigh/stopping facts of a
 returned pair over every linearly ordered field, and the algebraic residual identity.
-What is **not** proved: the analytic accuracy clause (`PowerAccuracy` below, a `def … : Prop`) —
-it is decided by search only (oracle of the check on symmetric `Q D Qᵀ` inputs).
+The analytic accuracy clause is stated here as `PowerAccuracy` (a `def … : Prop`, kept as the fixed
+statement) and **proved** in `SV.Props.C13Accuracy.power_accuracy` (exact real arithmetic; with
+sharper constants in `power_accuracy_sharp`); rounding is outside that theorem and rests on the
+oracle of the check on symmetric `Q D Qᵀ` inputs.
 -/
 set_option linter.unusedSectionVars false
 
@@ -279,13 +281,14 @@ theorem rayleigh_residual_identity {F : Type} [Field F] {n : Nat} (A : Matrix (F
   · have key : lam * (v ⬝ᵥ v) = v ⬝ᵥ A *ᵥ v := by rw [← hlam]; exact div_mul_cancel₀ _ h
     linear_combination (2 * lam) * key
 
-/-- **NOT PROVED — decided by search only** (the S half of `./check C13`, constant `C = 8`).
+/-- **Proved in `SV.Props.C13Accuracy.power_accuracy`** (this file only fixes the statement; the S
+half of `./check C13` tests the same clause on the implementation with the same constant `C = 8`).
 The analytic accuracy clause: for a real symmetric matrix with an orthonormal eigenbasis `q`,
 eigenvalues `d`, a dominant one `d i₁` with all others at most half its modulus, and the all-ones
 start vector at cosine at least `3/10` to the dominant eigenvector, every tolerance in
 `[1e-12, 1e-4]` makes the call return a pair with `‖Av − λv‖ ≤ C√tol·|λ|·‖v‖` and
-`|λ − λ₁| ≤ C·tol·|λ₁|`.  A proof needs the spectral decomposition and a contraction argument for
-the Rayleigh quotients of the iterates; it is outside what is proved here. -/
+`|λ − λ₁| ≤ C·tol·|λ₁|`.  The proof (Lemmas/C13AccSeq, C13AccSpec, C13AccLoop) goes through the
+spectral decomposition and a contraction argument for the Rayleigh quotients of the iterates. -/
 def PowerAccuracy : Prop :=
   ∀ (n : Nat) (A : Mat ℝ) (tol : ℝ), 0 < n → A.h = n → A.w = n → A.WF →
     (∀ i j, i < n → j < n → A.get i j = A.get j i) →
